@@ -7,6 +7,7 @@ from mc import world
 from mc.engine import Family, Res, HarnessError
 from mc.interp import build, count_events
 from mc.props.c05 import AllClassSpace
+from mc.props.c08 import AllClassNestedSpace
 from mc.ref.openql_tr import translate_block, RecProgram, RecKernel
 from mc.ref.schedule import canonical_state
 from mc.spaces import NestedSpace2, TwoLevelSpace
@@ -77,6 +78,24 @@ def judge(res, prog, c, label):
     return obs, p1.names()
 
 
+def program_steps(prog, circ=None):
+    """What the *program* says must be executed (order aside): every added leaf translated on its own, as often as its
+    blocks are repeated - independent of the circuit's own listing (an operation that changes kind or qubits on its way
+    into a block shows up).  Waits are compared by qubits only (durations are judged in order by the main clause)."""
+    from qce_circuit import DeclarativeCircuit
+    from mc.interp import make_op, rep_count
+    from mc.ref.openql_tr import translate_leaf
+    circ = circ or DeclarativeCircuit()
+    out = []
+    for e in prog:
+        if e[0] == 'op':
+            for st in translate_leaf(make_op(e[1], e[2], None, circ, e[4] if len(e) > 4 else '')):
+                out.append(st[:2] if st[0] == 'wait' else st)
+        else:
+            out.extend(program_steps(e[2], circ) * rep_count(e[1]))
+    return out
+
+
 class ExportFamily(Family):
     def __init__(self, space):
         self.space = space
@@ -97,6 +116,11 @@ class ExportFamily(Family):
         with world.override(world.CFG_G):
             c = build(prog).circ
             obs, names = judge(res, prog, c, 'as built')
+            from collections import Counter
+            want_ms, got_ms = Counter(program_steps(prog)), Counter(st[:2] if st[0] == 'wait' else st for st in obs)
+            if want_ms != got_ms:
+                res.fail('C15-program-multiset', 'program %r: the exported steps are not what the added operations translate to: missing %r, unexpected %r' % (
+                    prog, sorted((want_ms - got_ms).items(), key=repr)[:3], sorted((got_ms - want_ms).items(), key=repr)[:3]))
             res.outcome = (tuple(obs), tuple(names))
             res.states = [canonical_state(c)]
         res.transitions = count_events(prog) + 2
@@ -107,8 +131,8 @@ class ExportFamily(Family):
 
 def families(tier):
     if tier == 'quick':
-        return [ExportFamily(AllClassSpace(2)), ExportFamily(NestedSpace2(2)), ExportFamily(TwoLevelSpace(1))]
-    return [ExportFamily(AllClassSpace(2)), ExportFamily(AllClassSpace(3, ('Rx90', 'Rxm90', 'CPhase', 'Barrier', 'Wait', 'DispersiveMeasure', 'VirtualPark'))),
+        return [ExportFamily(AllClassSpace(2)), ExportFamily(AllClassNestedSpace()), ExportFamily(NestedSpace2(2)), ExportFamily(TwoLevelSpace(1))]
+    return [ExportFamily(AllClassSpace(2)), ExportFamily(AllClassNestedSpace()), ExportFamily(AllClassSpace(3, ('Rx90', 'Rxm90', 'CPhase', 'Barrier', 'Wait', 'DispersiveMeasure', 'VirtualPark'))),
             ExportFamily(NestedSpace2(2)), ExportFamily(TwoLevelSpace(2))]
 
 
